@@ -14,6 +14,7 @@ import random
 import sys
 import traceback
 import warnings
+import zlib
 
 REPO = os.environ.get("VERIF_REPO", "/repo")
 sys.path.insert(0, os.path.join(REPO, "src"))
@@ -383,7 +384,7 @@ def observe(case: dict) -> dict:
     if want.get("spy", False):
         obs["spy"] = observe_spy(case, x, u, d, okw, kw)
     # ---- CasADi
-    rng = random.Random(hash((case.get("id"), 17)) & 0xFFFFFFF)
+    rng = random.Random(zlib.crc32(f"{case.get('id')}|17".encode()))
     for spec in want.get("fn", []):
         obs["fn"].append(run_fn(case, spec, x, u, d, rng))
     for sym in want.get("jac", []):
@@ -611,7 +612,7 @@ def run_trajectory(case: dict) -> list[dict]:
         byname = b.byname(x, u, d)
         cur = {n: list(map(float, byname[n])) for n in names_in}
     else:
-        rng = random.Random(hash((case.get("id"), 23)) & 0xFFFFFFF)
+        rng = random.Random(zlib.crc32(f"{case.get('id')}|23".encode()))
         cur = {n: [rng.uniform(10.0, 70.0) for _ in range(size_in[i])] for i, n in enumerate(names_in)}
     names = base.get("names") or {}
     recs = []
@@ -619,6 +620,9 @@ def run_trajectory(case: dict) -> list[dict]:
         for o, series in (tr.get("demand") or {}).items():
             cur[f"d_{names.get(o, o)}"] = [float(num(series[k]))]
         args = [cur[n] for n in names_in]
+        if any((not np.isfinite(z)) or abs(z) > 1e5 for a in args for z in a):
+            break   # the closed loop left every physically meaningful range (position-only generic starts are not
+            #         admissible states): beyond this point the comparison would only measure floating-point blow-up
         outs = lib(F, *[cs.DM(a) if len(a) else cs.DM(0, 1) for a in args])
         outs = [np.asarray(o, float).reshape(-1) for o in (outs if isinstance(outs, (list, tuple)) else [outs])]
         fn = {"sym": sym, "compact": compact, "more_out": True, "params": [], "ok": True, "err": "", "free": len(F.get_free()),
